@@ -868,9 +868,14 @@ impl LdapConnAsync {
                         };
                         let (item, mut remove) = match protoop.id {
                             4 | 25 => (SearchItem::Entry(protoop), false),
-                            5 => (SearchItem::Done(Tag::StructureTag(protoop).into()), true),
+                            5 if crate::result::well_formed_result(&protoop) => {
+                                (SearchItem::Done(Tag::StructureTag(protoop).into()), true)
+                            },
                             19 => (SearchItem::Referral(protoop), false),
-                            _ => panic!("unrecognized op id: {}", protoop.id),
+                            _ => {
+                                warn!("unexpected or malformed op for search id {}: {}", id, protoop.id);
+                                return Err(LdapError::from(io::Error::new(io::ErrorKind::Other, "decoding error")));
+                            },
                         };
                         if let Err(e) = tx.send((item, controls)) {
                             warn!("ldap search item send error, op={}: {:?}", id, e);
